@@ -134,3 +134,23 @@ entry("C20", True, "model_checking",
       "BindingContract.",
       _GW_NOTE + " Loop exceptions during a binding are recorded, judged only through the clauses they break (J15).",
       "TLC model checking of the timed binding model + TLC trace validation of real two-gateway handshakes", "DESIGN.md §4 C20")
+
+entry("C01", True, "model_checking",
+      "spec/RxPipeline.tla models byte stream -> reads -> CRLF buffer -> lines -> {message, reject} -> delivery and the file/dict "
+      "replay loop; TLC checks partition independence and 'a bad line never stops the stream' for all streams over a 5-symbol "
+      "alphabet x all partitions into reads (incl. a cut between CR and LF, empty reads) and all placements of bad lines. Every "
+      "(stream shape, partition, mutation operator) is concretised and fed to the real PortTransport._read_ready (FakeSerial on a "
+      "socketpair), MqttTransport, FileTransport (log and dict) and Packet.from_* / Message; outcome traces (In / Outcome(kind, "
+      "exception type) / Deliver / End) are validated by TLC against RxTrace. Line contents: every shipped log line, single/double "
+      "edit mutants, regex-boundary payloads of every known verb/code.",
+      "Trusted: harness/gen.py generators, FakeSerial/stub paho rigs. 'For all strings' is sampled systematically (bounds in evidence); "
+      "stream shapes x partitions are exhaustive within the bound.",
+      "TLC model checking of the receive pipeline + TLC trace validation of the real transports/decoder", "DESIGN.md §4 C01")
+entry("C05", True, "model_checking",
+      "spec/Decode.tla: the decoder as a pure function behind caches; TLC checks determinism under all orders / repeats / cache "
+      "eviction and the array law; TLC histories are concretised with regex-generated packets of every known verb/code (arrays of "
+      "1..8 elements next to each element alone, eviction bursts in between) and decoded by the real Message; outcome traces "
+      "(JSON text, indexes, ranges) are validated by TLC against DecodeTrace.",
+      "Trusted: harness/gen.py regex walker (payload members of the library's own CODES_SCHEMA regexes). Ranges are not judged for "
+      "codes the library itself names unknown_*/message_*.",
+      "TLC model checking of decode histories + TLC trace validation of real decodes", "DESIGN.md §4 C05")
